@@ -92,6 +92,8 @@ package snowflake_client
 //@ immutable Peers.activePeers
 //@ immutable Peers.Tongue
 //@ channel Peers.snowflakeChan carries value != nil && value.closed != nil
+//@ channel Peers.melt closed by end
+//@ channel Peers.snowflakeChan closed by end
 //@ invariant Peers(p) guard collectLock [C15]: p.activePeers != nil && p.snowflakeChan != nil && p.melt != nil && p.activePeers.n >= 0
 //@   clause {at-most-max-peers} p.Tongue != nil ==> p.activePeers.n <= p.Tongue.max
 //@   clause {handover-closed-only-after-melt} closed(p.snowflakeChan) ==> closed(p.melt)
@@ -151,8 +153,8 @@ package snowflake_client
 // End: idempotent (the body runs under a sync.Once, so a second End cannot close an already closed channel).
 // end, the body: melt is closed first and without the lock (so that a Collect blocked in its hand-over, and the connect
 // loop, stop), the hand-over channel only under it; every peer still held is closed.
-// melt and snowflakeChan are closed nowhere else in the repository (closed-world: the at-call clauses below are the
-// only close sites of these two channels), so they are open until end has run.
+// melt and snowflakeChan are closed nowhere else in the repository (structural obligations channel.Peers.*.closed-only-by),
+// so they are open until end has run.
 //@ func (p *Peers) End()
 //@   props C15
 //@   requires p != nil
